@@ -154,6 +154,8 @@ def fresh(srcs, optvals):
 
 
 FRESH_STATS = {"brand_new": 0}
+FIRST = {"v": None}
+PROCESS_LOG = []
 BRAND_NEW_ENABLED = [True]
 
 
@@ -198,10 +200,18 @@ class History(RuleBasedStateMachine):
         self.shared = {}
         self.earlier = {}
         self.log = []
+        self.full = []
         self.last_compact = None
         self.flags = {"repeat-across-compact-switch": False, "directive-with-shared-options": False}
         self.last_seen_at = {}
         self.compact_history = []
+
+    def note(self, v):
+        """remember the first violation: a history-dependent failure need not reproduce when Hypothesis
+        replays the same steps in this (by then differently conditioned) process"""
+        if FIRST["v"] is None:
+            FIRST["v"] = v
+        return v
 
     @rule(target=reqs, i=st.integers(0, 60))
     def pick_fixed(self, i):
@@ -231,11 +241,14 @@ class History(RuleBasedStateMachine):
             raise Violation("C11:compile_code-raises:" + type(e).__name__, {"error": repr(e)[:300], "log": self.log[-6:]})
         key = sha([srcs, vec])
         self.log.append({"request": key[:10], "mode": mode, "bits": bits, "head": srcs[""][:80]})
-        detail = {"sources": srcs, "options": vec, "mode": mode, "history": self.log[-12:]}
+        PROCESS_LOG.append({"sources": srcs, "bits": bits, "mode": mode})
+        # the process keeps its state across Hypothesis examples: the replayable history is what this
+        # process compiled so far (last 80 requests)
+        detail = {"sources": srcs, "options": vec, "mode": mode, "history": self.log[-12:], "full_history": list(PROCESS_LOG[-80:])}
         if opts != before_opts:
-            raise Violation("C11:options-object-modified", dict(detail, before=repr(before_opts), after=repr(opts)))
+            raise self.note(Violation("C11:options-object-modified", dict(detail, before=repr(before_opts), after=repr(opts))))
         if src_arg != before_src:
-            raise Violation("C11:source-mapping-modified", detail)
+            raise self.note(Violation("C11:source-mapping-modified", detail))
         got = norm(res)
         for attempt in range(3):
             if not spurious_timeout(got, srcs):
@@ -246,10 +259,10 @@ class History(RuleBasedStateMachine):
                 History.stats.discarded["inconclusive:constexpr-child-timeout-under-load"] += 1
             return
         if key in self.earlier and self.earlier[key] != got:
-            raise Violation("C11:result-differs-from-earlier-result-in-this-process", dict(detail, earlier=self.earlier[key], now=got))
+            raise self.note(Violation("C11:result-differs-from-earlier-result-in-this-process", dict(detail, earlier=self.earlier[key], now=got)))
         ref = fresh(srcs, vec)
         if got != ref:
-            raise Violation("C11:result-differs-from-fresh-process", dict(detail, fresh=ref, now=got))
+            raise self.note(Violation("C11:result-differs-from-fresh-process", dict(detail, fresh=ref, now=got)))
         # bookkeeping for the non-triviality rule
         if key in self.last_seen_at:
             between = self.compact_history[self.last_seen_at[key] + 1:]
@@ -314,13 +327,18 @@ def run_shard(ctx):
     try:
         run_state_machine_as_test(machine, settings=settings(max_examples=n, stateful_step_count=steps, deadline=None, database=None,
                                                              suppress_health_check=list(HealthCheck), report_multiple_bugs=False, print_blob=False))
-    except Violation as v:
+    except (Violation, hypothesis.errors.HypothesisException) as e:
+        v = e if isinstance(e, Violation) else FIRST["v"]
+        if v is None:
+            raise
         if v.signature in ctx.known_signatures:
             ctx.stats.known[ctx.known_signatures[v.signature]] += 1
         else:
             d = dict(v.detail)
+            hist = d.pop("full_history", None)
+            d["reported_through"] = type(e).__name__
             ctx.stats.violations.append({"signature": v.signature, "detail": d, "case": {"sources": d.get("sources"), "options": d.get("options"),
-                                         "history": d.get("history")}})
+                                         "history": hist}})
     ctx.stats.extra["fresh_process_references"] = len(FRESH)
     ctx.stats.extra["brand_new_interpreter_references"] = FRESH_STATS["brand_new"]
     if _server is not None:
@@ -332,7 +350,18 @@ def run_shard(ctx):
 
 
 def replay(case):
-    """re-run the final request of a failing history twice in this process and against a fresh process"""
+    """re-run the recorded history in this (fresh) process with all invariants; if there is none, re-run
+    the final request twice and against a fresh process"""
+    if case.get("history"):
+        FIRST["v"] = None
+        m = History()
+        try:
+            for step in case["history"]:
+                m._compile(step["sources"], step["bits"], step["mode"])
+        except Violation as v:
+            d = {k: x for k, x in v.detail.items() if k != "full_history"}
+            return {"kind": "violation", "signature": v.signature, "detail": d}
+        return {"kind": "ok"}
     comp = repo.load()
     srcs, vec = case["sources"], case["options"]
     src_arg = dict(srcs) if len(srcs) > 1 else srcs[""]
